@@ -94,6 +94,7 @@ def run(chk, repo, tier):
     B13 = chk.rule('B13', 'writer: a branch guarded by the existence of a PK symbol uses that symbol', floor=4)
     C02b.run_b14(chk, repo)
     C02b.run_b15(chk, repo)
+    C02b.run_b16(chk, repo)
     from rules.C01b import run_a9
     run_a9(chk, B13, repo, modname='pharmpy.model.external.nonmem.update', minimum=3)
 
